@@ -247,7 +247,8 @@ def run_case(c):
         elif var == "bundled-root":
             # the whole chain hangs off a foreign root which the file brings along as an element
             # named like the root of trust; the operator chose the genuine root
-            foreign = certs.V2Cert(dict(spec, root=c["vkey"] + 1))
+            foreign = certs.V2Cert(dict(spec, root=c["roots"][0] + 1 + c["vkey"]))   # never the
+            #                                                          genuine root's number
             doc = foreign.to_dict()
             doc["elements"].append({
                 "name": "sgx_root", "type": "x509_pem", "signed_by": "sgx_root",
